@@ -96,12 +96,54 @@ Proof.
   - rewrite final_cp_snoc; simpl. rewrite H4; simpl. f_equal. lia.
 Qed.
 
+(* the message a write operation is busy with *)
+Definition inflight (p : wpc) : list msg :=
+  match p with
+  | WIdle => []
+  | WSizeW m _ | WSizeR m _ _ | WNextW m _ | WCmpW m _ _ | WW1 m _ _ | WBase1 m _ _ _
+  | WCopy1 m _ _ _ _ _ | WCopy2 m _ _ _ _ | WBaseC m _ _ | WCopyC m _ _ _ _ | WPublish m _ _ => [m]
+  end.
+
+(* ---- all messages but the last one of a list ---- *)
+Lemma removelast_keep : forall (P : msg -> Prop) l, Forall P l -> Forall P (removelast l).
+Proof.
+  induction l as [|a l IH]; intros F; [constructor|]. inversion F; subst.
+  destruct l as [|b l]; [constructor|]. change (removelast (a :: b :: l)) with (a :: removelast (b :: l)).
+  constructor; auto.
+Qed.
+
+Lemma removelast_delete : forall (P : msg -> Prop) a m b,
+  Forall P (removelast (a ++ m :: b)) -> Forall P (removelast (a ++ b)).
+Proof.
+  intros P a m b F. destruct b as [|c b].
+  - rewrite app_nil_r. change (a ++ [m]) with (a ++ [m]) in F. rewrite removelast_last in F.
+    now apply removelast_keep.
+  - rewrite removelast_app in F by discriminate. rewrite removelast_app by discriminate.
+    change (removelast (m :: c :: b)) with (m :: removelast (c :: b)) in F.
+    apply Forall_app in F as [Fa Fb]. inversion Fb; subst. apply Forall_app. split; assumption.
+Qed.
+
+Lemma removelast_nth : forall (P : msg -> Prop) l r j,
+  Forall P (removelast (l ++ r)) -> (S j < length l)%nat -> P (nth j l []).
+Proof.
+  induction l as [|a l IH]; intros r j F H; simpl in H; [lia|].
+  destruct l as [|b l]; [simpl in H; lia|].
+  change (removelast ((a :: b :: l) ++ r)) with (a :: removelast ((b :: l) ++ r)) in F.
+  inversion F; subst. destruct j as [|j]; [assumption|].
+  change (nth (S j) (a :: b :: l) []) with (nth j (b :: l) []). apply (IH r); [assumption | simpl in *; lia].
+Qed.
+
 Section Proofs.
 Variable N MM : Z.
 Variable frame : list byte -> Z.
 Variable wf : msg -> Prop.
 Hypothesis N_pos : 0 < N.
-Hypothesis frame_hd : forall m rest, wf m -> frame (m ++ rest) = zlen m.
+(* sd = the messages that are framed correctly whatever follows them in the
+   ring ("self-delimiting"); every message is framed correctly when nothing
+   follows it.  With sd := fun _ => True this is the plain hypothesis
+   frame (m ++ rest) = zlen m for every well-formed m. *)
+Variable sd : msg -> Prop.
+Hypothesis frame_hd : forall m rest, wf m -> sd m \/ rest = [] -> frame (m ++ rest) = zlen m.
 
 Notation Inv := (Inv N MM wf).
 Notation wview := (wview N MM wf).
@@ -395,11 +437,42 @@ Proof.
       * apply histP_drop. exact HI.
 Qed.
 
+(* ---- second invariant: every message of the history except the very last
+   one is self-delimiting.  The history = accepted ++ in flight ++ still in
+   the script; a dropped message leaves it.  It only speaks about ghost and
+   script fields, so it is preserved independently of Inv. ---- *)
+Definition pend (s : state) : list msg := acc s ++ inflight (wp s) ++ map wmsg (wscr s).
+Definition Inv2 (s : state) : Prop := Forall sd (removelast (pend s)).
+
+Lemma inv2_wstep : forall s, Inv2 s -> Inv2 (wstep N MM s).
+Proof.
+  intros s I2. unfold Inv2, pend in *. unfold wstep, wfetch.
+  destruct (wp s) eqn:EW; cbn [inflight] in I2.
+  - destruct (wscr s) as [|[m|m] tl] eqn:ES; [rewrite EW, ES; exact I2| |].
+    + destruct (zlen m <=? MM); nrm; cbn [inflight map wmsg] in *; [exact I2|].
+      rewrite EW. cbn [inflight]. simpl app in *. now apply removelast_delete in I2.
+    + nrm. cbn [inflight map wmsg] in *. exact I2.
+  - nrm. exact I2.
+  - destruct (_ <=? _); nrm; cbn [inflight] in *; [exact I2|].
+    simpl app in *. now apply removelast_delete in I2.
+  - nrm. exact I2.
+  - destruct (_ <? _); nrm; exact I2.
+  - nrm. exact I2.
+  - nrm. exact I2.
+  - destruct (_ <? _); [unfold store; destruct (inb N _)|]; nrm; exact I2.
+  - destruct (_ <? _); [unfold store; destruct (inb N _)|]; nrm; exact I2.
+  - nrm. exact I2.
+  - destruct (_ <? _); [unfold store; destruct (inb N _)|]; nrm; exact I2.
+  - destruct (0 <? len); nrm; cbn [inflight] in *; simpl app in *.
+    + rewrite <- app_assoc. exact I2.
+    + now apply removelast_delete in I2.
+Qed.
+
 Ltac rv := unfold RingInv.rview, rcore; nrm.
 
-Lemma inv_rstep : forall s, Inv s -> Inv (rstep N MM frame s).
+Lemma inv_rstep : forall s, Inv s -> Inv2 s -> Inv (rstep N MM frame s).
 Proof.
-  intros s I. pose proof I as [L E IW IR IRL OCC PK ACC SCR CON WV RV HI].
+  intros s I I2. pose proof I as [L E IW IR IRL OCC PK ACC SCR CON WV RV HI].
   pose proof (inv_R_le_W s I) as RW.
   unfold rstep. unfold RingInv.rview in RV. unfold hist in HI.
   destruct (rp s) eqn:ER; cbn [is_rl] in *; try specialize (IRL eq_refl).
@@ -452,7 +525,19 @@ Proof.
       as [rest VP]; auto; try lia.
     { apply Z.mod_pos_bound; lia. }
     { intros i Hi. rewrite mod_add_l by auto. apply content_j0; auto. }
-    rewrite VP, frame_hd by auto.
+    rewrite VP, frame_hd; [|auto|].
+    2:{ (* another message follows in the view: this one is not the last of the
+           history, hence self-delimiting; none follows: the view ends with it *)
+        unfold snapped in SN.
+        destruct (Nat.eq_dec (snap s) (S (j0 s la))) as [ES|ES].
+        - right. assert (VL : zlen (view N (buf s) (Bv s la mod N) (pos (acc s) (snap s) - Bv s la)) =
+                              pos (acc s) (snap s) - Bv s la).
+          { apply view_len; auto; try lia. apply Z.mod_pos_bound; lia. }
+          rewrite VP, ES in VL. unfold zlen in VL. rewrite app_length in VL.
+          destruct rest; [reflexivity|]. unfold zlen in M3. simpl in VL. lia.
+        - left. unfold mj. apply (removelast_nth sd (acc s) (inflight (wp s) ++ map wmsg (wscr s))).
+          + exact I2.
+          + lia. }
     mk; unfold RingInv.rview, hist; nrm; auto.
   - (* RReadR *)
     destruct RV as (NE & ->).
@@ -544,8 +629,27 @@ Proof.
       apply nth_error_nth'. lia.
 Qed.
 
-Lemma inv_step : forall s t, Inv s -> Inv (step N MM frame s t).
-Proof. intros s [|] I; simpl; auto using inv_wstep, inv_rstep. Qed.
+(* the reader touches neither the accepted list nor the writer's side *)
+Lemma rstep_writer_side : forall s,
+  acc (rstep N MM frame s) = acc s /\ wp (rstep N MM frame s) = wp s /\ wscr (rstep N MM frame s) = wscr s.
+Proof.
+  intros s. unfold rstep, rfetch, rfinish, loadchk.
+  destruct (rp s); try (destruct (rscr s) as [|[|] ?]);
+    repeat match goal with
+           | |- context [if ?c then _ else _] => destruct c
+           end; cbn; auto.
+Qed.
+
+Lemma inv2_rstep : forall s, Inv2 s -> Inv2 (rstep N MM frame s).
+Proof.
+  intros s I2. unfold Inv2, pend in *. destruct (rstep_writer_side s) as (-> & -> & ->). exact I2.
+Qed.
+
+Lemma inv_step : forall s t, Inv s -> Inv2 s -> Inv (step N MM frame s t).
+Proof. intros s [|] I I2; simpl; auto using inv_wstep, inv_rstep. Qed.
+
+Lemma inv2_step : forall s t, Inv2 s -> Inv2 (step N MM frame s t).
+Proof. intros s [|] I2; simpl; auto using inv2_wstep, inv2_rstep. Qed.
 
 (* ---- the invariant holds initially and after every schedule ---- *)
 Lemma inv_init : forall ws rs, Forall (fun o => okmsg wf (wmsg o)) ws -> Inv (init N ws rs).
@@ -555,12 +659,18 @@ Proof.
   - repeat split; auto.
 Qed.
 
-Lemma inv_run : forall sched s, Inv s -> Inv (run N MM frame s sched).
-Proof. induction sched; simpl; intros; auto. apply IHsched, inv_step; auto. Qed.
+Lemma inv2_init : forall ws rs, Forall sd (removelast (map wmsg ws)) -> Inv2 (init N ws rs).
+Proof. intros ws rs F. exact F. Qed.
+
+Lemma inv_run : forall sched s, Inv s -> Inv2 s -> Inv (run N MM frame s sched) /\ Inv2 (run N MM frame s sched).
+Proof.
+  induction sched; simpl; intros; auto. apply IHsched; [apply inv_step | apply inv2_step]; auto.
+Qed.
 
 Lemma inv_reach : forall ws rs sched, Forall (fun o => okmsg wf (wmsg o)) ws ->
-  Inv (run N MM frame (init N ws rs) sched).
-Proof. intros; apply inv_run, inv_init; auto. Qed.
+  Forall sd (removelast (map wmsg ws)) ->
+  Inv (run N MM frame (init N ws rs) sched) /\ Inv2 (run N MM frame (init N ws rs) sched).
+Proof. intros; apply inv_run; [apply inv_init | apply inv2_init]; auto. Qed.
 
 (* ---- FIFO: normal reads are a prefix of the accepted messages ---- *)
 Fixpoint nreads (os : list obs) : list msg :=
@@ -761,12 +871,6 @@ Fixpoint wlog (os : list obs) : list msg :=
   | ODrop m :: t => m :: wlog t
   | _ :: t => wlog t
   end.
-Definition inflight (p : wpc) : list msg :=
-  match p with
-  | WIdle => []
-  | WSizeW m _ | WSizeR m _ _ | WNextW m _ | WCmpW m _ _ | WW1 m _ _ | WBase1 m _ _ _
-  | WCopy1 m _ _ _ _ _ | WCopy2 m _ _ _ _ | WBaseC m _ _ | WCopyC m _ _ _ _ | WPublish m _ _ => [m]
-  end.
 Definition written (s : state) : list msg := wlog (out s) ++ inflight (wp s) ++ map wmsg (wscr s).
 
 Lemma wlog_snoc : forall os o, wlog (os ++ [o]) = wlog os ++ wlog [o].
@@ -828,6 +932,30 @@ Definition frame_ok (frame : list byte -> Z) (wf : msg -> Prop) : Prop :=
   forall m rest, wf m -> frame (m ++ rest) = zlen m.
 Definition script_ok (wf : msg -> Prop) (ws : list wop) : Prop :=
   Forall (fun o => okmsg wf (wmsg o)) ws.
+
+(* frame_ok = the hypothesis of Section Proofs with every message self-delimiting *)
+Lemma frame_ok_sd : forall frame wf, frame_ok frame wf ->
+  forall m rest, wf m -> (fun _ : msg => True) m \/ rest = [] -> frame (m ++ rest) = zlen m.
+Proof. intros frame wf FR m rest W _. now apply FR. Qed.
+
+Lemma inv2_trivial : forall s, Inv2 (fun _ => True) s.
+Proof. intros s. unfold Inv2. apply Forall_forall. auto. Qed.
+
+Lemma inv_step_ok : forall N MM frame wf, 0 < N -> frame_ok frame wf ->
+  forall s t, Inv N MM wf s -> Inv N MM wf (step N MM frame s t).
+Proof.
+  intros N MM frame wf NP FR s t I.
+  apply (inv_step N MM frame wf NP (fun _ => True) (frame_ok_sd frame wf FR) s t I (inv2_trivial s)).
+Qed.
+
+Lemma inv_reach_ok : forall N MM frame wf, 0 < N -> frame_ok frame wf ->
+  forall ws rs sched, Forall (fun o => okmsg wf (wmsg o)) ws ->
+  Inv N MM wf (run N MM frame (init N ws rs) sched).
+Proof.
+  intros N MM frame wf NP FR ws rs sched F.
+  apply (inv_reach N MM frame wf NP (fun _ => True) (frame_ok_sd frame wf FR) ws rs sched F).
+  apply Forall_forall. auto.
+Qed.
 Definition reach (N MM : Z) (frame : list byte -> Z) (ws : list wop) (rs : list rop) (sched : list tid) : state :=
   run N MM frame (init N ws rs) sched.
 
@@ -879,8 +1007,8 @@ Lemma hasnext_exact : forall N MM frame wf, 0 < N -> frame_ok frame wf ->
   out s2 = out s ++ [OHas la (j0 s la <? length (acc s))%nat (length (acc s)) (cons s) (peek s)].
 Proof.
   intros N MM frame wf NP FR s la try I ER s2.
-  assert (I1 : Inv N MM wf (rstep N MM frame s)) by (apply (inv_step N MM frame wf NP FR s Rd I)).
-  assert (I2 : Inv N MM wf s2) by (apply (inv_step N MM frame wf NP FR _ Rd I1)).
+  assert (I1 : Inv N MM wf (rstep N MM frame s)) by (apply (inv_step_ok N MM frame wf NP FR s Rd I)).
+  assert (I2 : Inv N MM wf s2) by (apply (inv_step_ok N MM frame wf NP FR _ Rd I1)).
   pose proof (hasnext_lin N MM wf s2 I2) as H.
   assert (E1 : rstep N MM frame s = set_rp (g_snap s) (RHasR la try (iw s)))
     by (unfold rstep; rewrite ER; reflexivity).
@@ -962,7 +1090,7 @@ Lemma rrank_dec : forall N MM frame wf, 0 < N -> frame_ok frame wf -> forall s, 
   0 <= rrank N (rp (rstep N MM frame s)) < rrank N (rp s).
 Proof.
   intros N MM frame wf NP FR s I NI.
-  pose proof (inv_step N MM frame wf NP FR s Rd I) as I'. simpl in I'.
+  pose proof (inv_step_ok N MM frame wf NP FR s Rd I) as I'. simpl in I'.
   pose proof (i_rv _ _ _ _ I) as RV. pose proof (i_rv _ _ _ _ I') as RV'.
   unfold RingInv.rview in RV, RV'. revert RV'. unfold rstep, rfinish.
   destruct (rp s) eqn:ER; try congruence; cbn [rp set_rp g_snap rrank].
@@ -1006,10 +1134,10 @@ Hypothesis WS : script_ok wf ws.
 Let s := reach N MM frame ws rs sched.
 
 Lemma reach_inv : Inv N MM wf s.
-Proof. apply inv_reach; auto. Qed.
+Proof. apply inv_reach_ok; auto. Qed.
 
 Lemma top_inv_step : forall s0 t, Inv N MM wf s0 -> Inv N MM wf (step N MM frame s0 t).
-Proof. intros; apply inv_step; auto. Qed.
+Proof. intros; apply inv_step_ok; auto. Qed.
 
 Lemma top_fifo : nreads (out s) = firstn (length (nreads (out s))) (accs_of (out s)).
 Proof. apply (fifo N MM wf), reach_inv. Qed.
